@@ -313,7 +313,7 @@ def replay(payload):
                     st = [0, 1, 2, 3, 4][l[2]]
 
         def fake_lp(c, **kw):
-            captured.append(dict(c=np.array(c, dtype=float), **kw))
+            captured.append(dict(c=np.array(c, dtype=float, copy=True), **{k_: (np.array(v_, dtype=float, copy=True) if isinstance(v_, np.ndarray) else v_) for k_, v_ in kw.items()}))
             x = np.array([vals.get(f"lp1_x{i}", 0.3 + 0.1 * i) if attempt == 0 else rng.uniform(-1, 1) for i in range(len(c))])
             return types.SimpleNamespace(x=x, fun=float(np.dot(c, x)), success=(st == 0), status=st, message="scripted", nit=1)
 
@@ -336,6 +336,12 @@ def replay(payload):
             continue
         call = captured[0]
         cols = [v.name for v in p.variables]
+        if payload["kind"] != "mapping" and len(captured) >= 2:
+            a, b = captured[0], captured[1]
+            for key in ("c", "A_ub", "b_ub", "A_eq", "b_eq"):
+                u, v = a.get(key), b.get(key)
+                if (u is None) != (v is None) or (u is not None and not np.allclose(np.asarray(u, dtype=float), np.asarray(v, dtype=float), rtol=0, atol=1e-12)):
+                    return True, f"the second solve of the same problem passes {key} = {np.asarray(v, dtype=float).tolist() if v is not None else None}, the first passed {np.asarray(u, dtype=float).tolist() if u is not None else None}"
         if payload["kind"] == "mapping":
             from optyx.solution import SolverStatus
             if sol.status.name != STATUS_MAP[st]:
